@@ -186,3 +186,25 @@ uint16_t gsm_freq102arfcn(uint16_t freq10, int uplink)
 
 	return arfcn;
 }
+
+/* libosmocore's hexdump helpers (diagnostics of the code under test may use them) */
+static char shim_hexd_buff[4096];
+static char *shim_hexdump(const unsigned char *buf, int len, const char *delim)
+{
+	int i;
+	char *cur = shim_hexd_buff;
+	shim_hexd_buff[0] = 0;
+	for (i = 0; i < len; i++) {
+		int room = (int) sizeof(shim_hexd_buff) - (int) (cur - shim_hexd_buff);
+		int rc;
+		if (room < 4)
+			break;
+		rc = snprintf(cur, room, "%02x%s", buf[i], delim);
+		if (rc <= 0)
+			break;
+		cur += rc;
+	}
+	return shim_hexd_buff;
+}
+char *osmo_hexdump(const unsigned char *buf, int len) { return shim_hexdump(buf, len, " "); }
+char *osmo_hexdump_nospc(const unsigned char *buf, int len) { return shim_hexdump(buf, len, ""); }
